@@ -45,6 +45,7 @@ type vReproExec struct {
 	phase     int // 0 idle, 1 detach blocked, 2 listed once, 3 listed as gone, 4 detach released
 	release   chan struct{}
 	listAfter int // "--list" calls answered after the release
+	released  time.Time
 	done      chan struct{}
 }
 
@@ -71,11 +72,14 @@ func (x *vReproExec) Execute(env map[string]string, cmd string, stdin io.Reader)
 			return []byte("\n"), nil, nil
 		case 3:
 			x.phase = 4
+			x.released = time.Now()
 			close(x.release)
 			return []byte("\n"), nil, nil
 		case 4:
+			// survived: several probes after startContainer's goroutine has certainly finished
 			x.listAfter++
-			if x.listAfter == 6 {
+			if x.listAfter >= 6 && time.Since(x.released) > 500*time.Millisecond {
+				x.phase = 5
 				close(x.done)
 			}
 		}
